@@ -433,6 +433,24 @@ def run_histories(spec, cases, work, model_ok=True, compare_taps=True):
     outcomes = Counter()
     compared = 0
     nontrivial = 0
+    # C13: the store files a successful real unlocked `cargo vet` leaves behind are in written form (the hypothesis under
+    # which the model's check is proved to be a no-op): the executable test is evaluated on the re-loaded files
+    if model_ok and getattr(spec, "check_written_form", False):
+        wexprs = []
+        for cid, o in obs.items():
+            if o["status"] != "ok":
+                continue
+            for k, st_ in enumerate(o["steps"]):
+                if cmd_class(st_["args"]) == "check" and st_["outcome"] == "ok" and o["post_stores"][k + 1]:
+                    wexprs.append((f"{cid}%{k}", f"show_written {coq(o['post_stores'][k + 1]['store'])}"))
+        wmodel = vetlib.run_model(wexprs, os.path.join(work, "model-written"), MODEL_IMPORTS + ["WrittenForm"]) if wexprs else {}
+        for key, _ in wexprs:
+            cid, k = key.rsplit("%", 1)
+            m = wmodel.get(key, "MODEL-ERROR: missing")
+            compared += 1
+            if m.startswith("MODEL-ERROR") or " 0)" in m:
+                res["mismatches"].append({"id": cid, "why": f"step {k}: the store written by a successful `cargo vet` is not in written form: {m[:300]}",
+                                          "case": gen.strip_struct(bycase[cid])})
     # user-requested commands with logic of their own (`trust`): the model (coq/UserCommands.v) is run on the entries the
     # store held before the command and the request as typed, and compared with what the real command wrote
     if model_ok and getattr(spec, "compare_user_commands", False):
